@@ -15,6 +15,7 @@ Lean file read the source with the same patterns.  Extracted from /repo/src:
     `execute_unified_redis_command` → `LuaCommandAdapter::execute_lua_command` →
     `UnifiedCommandExecutor::execute`: no thread spawn / channel / async hand-off / `.await` in any
     of these bodies: `Gen.evalIsSynchronous` (coarse, as C07's `execIsSynchronous`);
+  * what bounds a script's memory (`Gen.luaScriptMemoryLimit`: bytes given to set_memory_limit in create_lua_context, 0 = none);
   * what bounds a script's run time (`Gen.luaScriptTimeLimit`: the limit in ms of the count hook in LuaEngine::eval, 0 = none; DESIGN §6 row 12);
   * the conversion arms the model's quirk switches stand for (`Gen.luaQuirksSeen`: name, as seen in
     the source now) — informational for the theorems, used by lib/c12.py to drive the model.
@@ -69,7 +70,7 @@ SYNC_BAD = re.compile(r"thread::spawn|\.await\b|\basync\b|mpsc::|\.send\(|crossb
 
 def facts(src, strip_comments, fn_body):
     out = {"blocked": None, "removed_eval": None, "removed_load": None, "executor": None,
-           "sync": None, "sync_why": "", "quirks": {}, "time_limit": None}
+           "sync": None, "sync_why": "", "quirks": {}, "time_limit": None, "memory_limit": None}
     eng = strip_comments(src("storage/lua_engine.rs"))
     body = fn_body(eng, "execute_unified_redis_command")
     if body is not None:
@@ -191,7 +192,7 @@ def facts(src, strip_comments, fn_body):
     ev = fn_body(eng, "eval")
     ctx = fn_body(eng, "create_lua_context")
     if ev is not None and ctx is not None:
-        body = ev + ctx
+        body = ev + ctx + (fn_body(eng, "install_time_limit_hook") or "")
         hook = re.search(r"\.\s*set_(?:global_)?hook\s*\(\s*HookTriggers::new\(\)\s*\.\s*every_nth_instruction\s*\(", body)
         if not hook:
             out["time_limit"] = 0 if not re.search(r"set_hook|set_global_hook|set_interrupt|HookTriggers", body) else None
@@ -200,6 +201,22 @@ def facts(src, strip_comments, fn_body):
             c = m and re.search(r"const\s+" + m.group(1) + r"\s*:\s*(?:std::time::)?Duration\s*=\s*(?:std::time::)?Duration::from_(secs|millis)\(\s*([0-9_]+)\s*\)\s*;", eng)
             if c:
                 out["time_limit"] = int(c.group(2).replace("_", "")) * (1000 if c.group(1) == "secs" else 1)
+    # ---- the bound on a script's memory in bytes, 0 = none: `lua.set_memory_limit(CONST)` on the state scripts run in
+    if ev is not None and ctx is not None:
+        m = re.search(r"\.\s*set_memory_limit\s*\(\s*([A-Z_][A-Z0-9_]*|[0-9_]+(?:\s*<<\s*[0-9]+)?)\s*\)", ev + ctx)
+        if not m:
+            out["memory_limit"] = 0 if "set_memory_limit" not in eng else None
+        else:
+            expr = m.group(1)
+            if not expr[0].isdigit():
+                c = re.search(r"const\s+" + expr + r"\s*:\s*usize\s*=\s*([0-9_]+(?:\s*<<\s*[0-9]+)?(?:\s*\*\s*[0-9_]+)*)\s*;", eng)
+                expr = c.group(1) if c else None
+            if expr is not None:
+                v = 1
+                for fct in expr.split("*"):
+                    a = fct.replace("_", "").split("<<")
+                    v *= int(a[0]) << (int(a[1]) if len(a) > 1 else 0)
+                out["memory_limit"] = v
     return out
 
 
@@ -243,6 +260,12 @@ def generate(src, strip_comments, fn_body, header):
         L.append("/-- the bound on a script's run time in milliseconds, 0 = none: `LuaEngine::eval` (EVAL and EVALSHA, a fresh Lua state per script)")
         L.append("    installs a count hook (`every_nth_instruction`) that compares `start_time.elapsed()` with a `const ...: Duration` and raises a Lua error -/")
         L.append("def luaScriptTimeLimit : Nat := %d" % f["time_limit"])
+    if f["memory_limit"] is None:
+        L.append('def luaScriptMemoryLimit : Nat := extraction_failed "set_memory_limit in create_lua_context / LuaEngine::eval not recognised"')
+    else:
+        L.append("/-- the bound on the memory of a script's Lua state in bytes, 0 = none: `lua.set_memory_limit(CONST)` in `create_lua_context` (the state every")
+        L.append("    EVAL / EVALSHA runs in); an allocation beyond it raises Lua's 'not enough memory' error -/")
+        L.append("def luaScriptMemoryLimit : Nat := %d" % f["memory_limit"])
     seen = [(k, f["quirks"][k]) for k in QUIRK_NAMES if k in f["quirks"]]
     L.append("/-- the deviating form of each conversion arm as the source has it now (quirk switch of Model/Lua.lean, present?) ; an arm that was not recognised is absent -/")
     L.append("def luaQuirksSeen : List (String × Bool) := [%s]" % ", ".join('("%s", %s)' % (k, "true" if v else "false") for k, v in seen))
